@@ -177,21 +177,27 @@ def count_points(fa, args_a, src_prefix):
 
 
 def run_schedule(fa, args_a, fb, args_b, k, src_prefix):
-    """A preempted before its k-th traced line by a complete run of B. returns (result_a, result_b) or None if infeasible."""
-    st = {"n": 0, "in_b": False, "rb": None, "fired": False, "infeasible": False}
+    """A preempted before its k-th traced line by a complete run of B. returns (result_a, result_b) or None if infeasible.
+    k may be a tuple (k1, k2, ...): A is preempted before each of those lines, every time by a complete fresh run of B
+    (preemption bound len(k)); result_b is then the tuple of B's results."""
+    ks = tuple(k) if isinstance(k, (tuple, list)) else (k,)
+    multi = isinstance(k, (tuple, list))
+    st = {"n": 0, "in_b": False, "rb": None, "fired": False, "infeasible": False, "rbs": [], "nf": 0}
 
     def local(frame, event, arg):
         if st["in_b"]:
             return local
         if event == "line":
             st["n"] += 1
-            if st["n"] == k and not st["fired"]:
-                st["fired"] = True
+            if st["n"] in ks and st["nf"] < len(ks) and st["n"] == ks[st["nf"]]:
+                st["nf"] += 1
+                st["fired"] = st["nf"] == len(ks)
                 st["in_b"] = True
                 CUR[0] = 1
                 _fresh_thread()
                 try:
                     st["rb"] = _run(fb, args_b)
+                    st["rbs"].append(st["rb"])
                 except Infeasible:
                     st["infeasible"] = True
                 finally:
@@ -229,13 +235,24 @@ def run_schedule(fa, args_a, fb, args_b, k, src_prefix):
             signal.signal(signal.SIGALRM, old_h)
     if st["infeasible"] or not st["fired"]:
         return None
-    return ra, st["rb"]
+    return ra, (tuple(st["rbs"]) if multi else st["rb"])
 
 
-def explore(fa, args_a, fb, args_b, src_prefix, max_points=400):
+def explore(fa, args_a, fb, args_b, src_prefix, max_points=400, bound=1):
     stub_package_locks(src_prefix)
     n, _ = count_points(fa, args_a, src_prefix)
     out, infeasible = [], 0
+    if bound == 2:
+        # every pair of preemption points k1 < k2 (B runs completely at both); schedules with one preemption are the bound-1 set
+        m = min(n, max_points)
+        for k1 in range(1, m + 1):
+            for k2 in range(k1 + 1, m + 1):
+                r = run_schedule(fa, args_a, fb, args_b, (k1, k2), src_prefix)
+                if r is None:
+                    infeasible += 1
+                else:
+                    out.append(((k1, k2), r[0], r[1]))
+        return {"points": n, "schedules": out, "infeasible": infeasible, "capped": n > max_points}
     for k in range(1, min(n, max_points) + 1):
         r = run_schedule(fa, args_a, fb, args_b, k, src_prefix)
         if r is None:
